@@ -37,6 +37,9 @@ def Mem_ZRemRangeByScore : List String := ["mu.Lock", "defer mu.Unlock", "@m.dat
 def Mem_ZScore : List String := ["mu.RLock", "defer mu.RUnlock", "@m.data", "{ret", "}", "@m.data", "{ret", "}", "@item.Value", "{ret", "}", "{ret", "}"]
 def Mem_expirationFor : List String := ["{ret", "}", "Add"]
 def Mem_onClose : List String := ["mu.Lock", "defer mu.Unlock", "@m.data"]
+def Red_AppendToList : List String := ["RPush", "LLen", "Expire"]
+def Red_IncrBy : List String := ["Exists", "IncrBy", "Expire"]
+def Red_SetHash : List String := ["Exists", "HSet", "Expire"]
 def Repo_Cleanup_Acquire : List String := ["SetNX", "Get", "Delete", "Delete", "Delete", "Delete", "Delete", "CompareAndSwap", "Delete", "Delete"]
 def Repo_Cleanup_Complete : List String := ["Delete", "Get", "Delete", "CompareAndSwap"]
 def Repo_Cleanup_Register : List String := ["Exists", "Set"]
